@@ -50,11 +50,26 @@ def audit(dirs):
 
 
 def audit_dir(d):
+    """audits the development = the files listed in _CoqProject (a work-in-progress file lying in the directory is not
+    part of it), and checks that nothing listed requires a local module that is not listed (and so not audited)"""
     probs = []
+    listed = None
+    cp = os.path.join(d, '_CoqProject')
+    if os.path.exists(cp):
+        listed = set(l.strip() for l in open(cp) if l.strip().endswith('.v'))
+    local = set(fn[:-2] for fn in os.listdir(d) if fn.endswith('.v'))
     for fn in sorted(os.listdir(d)):
         if not fn.endswith('.v'):
             continue
+        if listed is not None and fn not in listed:
+            continue
         src = strip_comments(open(os.path.join(d, fn)).read())
+        if listed is not None:
+            for m in re.finditer(r'Require\s+(?:Import|Export)?\s+([^.]*?)\.\s', src + ' '):
+                for name in m.group(1).split():
+                    name = name.split('.')[-1]
+                    if name in local and name + '.v' not in listed:
+                        probs.append('%s requires %s.v, which is not listed in _CoqProject (not audited)' % (fn, name))
         # Variables/Hypotheses are allowed inside sections only
         depth = 0
         for ln in src.splitlines():
